@@ -1,0 +1,26 @@
+//go:build verif
+
+package time
+
+import (
+	"sync/atomic"
+	gotime "time"
+)
+
+var verifClock atomic.Value // func() gotime.Time
+
+// VerifSetNow installs (or, with nil, removes) a clock override.
+func VerifSetNow(f func() gotime.Time) {
+	if f == nil {
+		verifClock.Store((func() gotime.Time)(nil))
+		return
+	}
+	verifClock.Store(f)
+}
+
+func verifNow() (gotime.Time, bool) {
+	if f, _ := verifClock.Load().(func() gotime.Time); f != nil {
+		return f(), true
+	}
+	return gotime.Time{}, false
+}
